@@ -29,13 +29,15 @@ def B(s):
 
 
 # rule -> (alphabet bytes, quick length, thorough length)
+# Every alphabet holds form feed (\f): white space to Unicode-aware library functions (bytes.TrimSpace, unicode.IsSpace)
+# but an ordinary character to CommonMark's line rules, which know only space, tab and line endings.
 PLAN = {
-    "thematic": (B("-_* \ta"), 6, 8),
-    "atx":      (B("# \ta\\"), 7, 9),
-    "setext":   (B("=- \ta"), 6, 8),
-    "fence":    (B("`~ a\t"), 7, 9),
-    "marker":   (B("-+*10.) \ta"), 5, 6),
-    "uri":      (B("a%4G/ \"") + [0xC3, 0xA9, 0xFF], 5, 6),
+    "thematic": (B("-_* \ta\f"), 6, 7),
+    "atx":      (B("# \ta\\\f"), 6, 8),
+    "setext":   (B("=- \ta\f"), 6, 8),
+    "fence":    (B("`~ a\t\f"), 6, 8),
+    "marker":   (B("-+*10.) \ta\f"), 5, 6),
+    "uri":      (B("a%4G/ \"") + [0xC3, 0xA9, 0xFF, 0xC5, 0x81], 5, 6),   # C5 81 = U+0141, a code point >= U+0100 whose low byte is an ASCII letter
     "email":    (B("a1-.@! "), 6, 8),
     "autolink": (B("<>a1:+@. "), 6, 7),
     "bytes":    ([97], 0, 0),
@@ -44,15 +46,13 @@ PLAN = {
 
 def run(ctx):
     ctx.build_harness()
-    outs = []
+    jobs = []
     for rule, (alpha, q, t) in PLAN.items():
         n = q if ctx.tier == "quick" else t
-        r = ctx.tlc("LineRules", cfg(rule, alpha, n), name="LineRules_" + rule, timeout=3000)
-        outs.append(r["out"])
+        jobs.append(dict(module="LineRules", cfg_text=cfg(rule, alpha, n), name="LineRules_" + rule, workers=4, timeout=3000))
     for rule in ("marker", "email", "autolink"):
-        r = ctx.tlc("LineRules", cfg(rule, [97], 0).replace("INIT Init", "INIT InitBoundary"), name="LineRules_boundary_" + rule,
-                    workers=2, timeout=600)
-        outs.append(r["out"])
+        jobs.append(dict(module="LineRules", cfg_text=cfg(rule, [97], 0).replace("INIT Init", "INIT InitBoundary"), name="LineRules_boundary_" + rule,
+                         workers=1, timeout=600))
     # boundary lengths that the exhaustive alphabets cannot reach: 9/10-digit ordered markers,
     # 63/64-byte domain labels, 32/33-character schemes; and seeded random longer lines per rule
     for rule, (alpha, q, t) in PLAN.items():
@@ -61,9 +61,9 @@ def run(ctx):
         num = 300 if ctx.tier == "quick" else 5000
         depth = {"marker": 14, "email": 70, "autolink": 40}.get(rule, 24)
         alpha2 = {"marker": B("1234567890.) a"), "email": B("aaaa1-.@"), "autolink": B("<>aaa1:+.@ ")}.get(rule, alpha)
-        r = ctx.tlc("LineRules", cfg(rule, alpha2, depth), name="LineRules_sim_" + rule,
-                    simulate="num=%d" % num, depth=depth + 1, workers=1, timeout=600)
-        outs.append(r["out"])
+        jobs.append(dict(module="LineRules", cfg_text=cfg(rule, alpha2, depth), name="LineRules_sim_" + rule,
+                         simulate="num=%d" % num, depth=depth + 1, workers=1, timeout=600))
+    outs = [r["out"] for r in ctx.tlc_many(jobs, parallel=5)]
     rc, res, _ = ctx.harness(["linerules"] + outs, timeout=3000)
     ctx.absorb(res)
     ctx.exhaustive = True
